@@ -36,7 +36,9 @@
 (*   faults    for every failing item: kind, report ("must" | "never" | "any"), *)
 (*             cont ("must" | "mustnot" | "any"), need = the sentinels         *)
 (*             errors.Is must find in the result once this failure has         *)
-(*             occurred and report = must                                      *)
+(*             occurred and report = must; carry = never-reported sentinels    *)
+(*             that may be found after all once this failure occurred (the     *)
+(*             value of a reported panic)                                      *)
 (*   never     sentinels errors.Is must never find in the result               *)
 (*   bound     after the first failure that must abort has returned (every     *)
 (*             other user function being held), at most `bound` = k further    *)
@@ -122,7 +124,7 @@ Inv == /\ held \subseteq 1..nent /\ nent <= cfg.n /\ Cardinality(held) <= cfg.k
 (* ------------------------------------------------------------- what the property allows *)
 Name(s, i) == IF s = "E" THEN "E" \o ToString(i) ELSE s
 ItemRow(i) == [item |-> i, kind |-> cfg.F[i], report |-> Rep(i), cont |-> Cont(i),
-               need |-> {Name(s, i) : s \in Need(cfg.F[i])}]
+               need |-> {Name(s, i) : s \in Need(cfg.F[i])}, carry |-> MayCarry(cfg.F[i])]
 Beh(s) == [cfg   |-> [c |-> cfg.c, n |-> cfg.n, k |-> cfg.k, coe |-> cfg.o.coe, cop |-> cfg.o.cop, inc |-> cfg.o.inc,
                       exc |-> cfg.o.exc, coll |-> cfg.coll, kinds |-> cfg.F,
                       faults |-> {ItemRow(i) : i \in Faulty},
